@@ -9,6 +9,7 @@ C01 — machine-checked witnesses.
   operation is freed while the kernel still has it in flight and the ring is open.
 -/
 import Compio.Model.KeyLife
+import Compio.Model.MultiFd
 
 namespace Compio.Cex.C01
 
@@ -73,5 +74,13 @@ theorem free_before_close_kernel_still_writes :
     ((run ⟨[.drainCq, .freeInFlight, .closeRing], true, true⟩ (init .iour 4)
         [.pushSq .single 0 .rd, .submit, .userCancel 0 [], .dropBegin, .dropStep, .dropStep,
           .kPost 0 false (.ok 4)]).isSome) = true := by rfl
+
+/-- seeded change C01-4a (`break` after the first cancelled descriptor in `poll::Driver::cancel`): with a loop that leaves
+early a two-descriptor operation stays in the write queue of its second descriptor after the cancel was reported, and is
+still alive (count 1, not freed) after the poll that reaps the cancellation, although the caller holds nothing -/
+theorem early_break_leaves_key_registered :
+    (MultiFd.run true (MultiFd.init .poll) [.push [(0, .rd), (1, .wr)], .cancel 0, .poll]).map
+      (fun s => (s.reg 0, s.reg 1, s.ops.map fun o => (o.user, o.rc, o.freed, o.result)))
+    = some (⟨[], []⟩, ⟨[], [0]⟩, [(0, 1, 0, some 125)]) := by rfl
 
 end Compio.Cex.C01
